@@ -1566,14 +1566,11 @@ func ruleCP1f(c *Ctx) *rule {
 		r.undecided(fname(rl.fn)+" force-parameter", c.ipos(rl.X), "cannot identify the force parameter of the run-loop function")
 		return r
 	}
-	// the parameter must be fed from Options.Force
-	ps := c.newSlicer()
-	ps.depth = 3
-	pres := ps.run(rl.force)
-	if pres.hasField("cli/app.Options.Force") {
-		r.ok(fname(rl.fn)+" force<-Options.Force", c.pos(rl.force.Pos()), "the force parameter is fed from the --force option")
+	// the parameter must be fed from Options.Force at every call site of every function on the way
+	if why := c.allBindingsAre(rl.force, 5, func(v ssa.Value) bool { return loadedField(v) == "cli/app.Options.Force" }); why == "" {
+		r.ok(fname(rl.fn)+" force<-Options.Force", c.pos(rl.force.Pos()), "on every call chain the force parameter is the --force option itself")
 	} else {
-		r.bad(fname(rl.fn)+" force<-Options.Force", c.pos(rl.force.Pos()), "the force parameter of the run loop is not fed from Options.Force (fields: "+join(pres.fieldKeys())+")")
+		r.bad(fname(rl.fn)+" force<-Options.Force", c.pos(rl.force.Pos()), "the force parameter of the run loop is not Options.Force on every call chain: "+why)
 	}
 	if len(rl.K) == 0 {
 		r.ok(fname(rl.fn)+" no-skip", c.ipos(rl.X), "nothing is ever reported skipped")
@@ -1757,21 +1754,423 @@ func cacheProperties() []*propertySpec {
 			Explanation: "Static must-analysis of the run loop of file.SpokFile.Run on the SSA form: the cache events (read G, update S, persist D, load L), the digest computation H, the command execution X and the 'skipped' stores K are located by effect and type; CP1 proves by edge dominance that every K is guarded by H==G of the iterated task read from the loaded cache; CP3 proves by exhaustive path search over the function's CFG (with infeasible-branch pruning) that no path from a successful X leaves a stale digest on disk; CP6 proves by backward slicing that every declared file input field reaches H and that glob expansion dominates the loop; CP9 that keys and file path agree. Decides these structural necessary conditions for every path of the code, not the observed behaviour.",
 			NotCovered:  []string{"change-sensitivity of the digest function itself (C04)", "correctness of glob expansion (C05)", "clock / file-system races between hashing and running"},
 			Assumptions: trusted,
-			Rules:       []func(*Ctx) *rule{ruleCP1, ruleCP3("CP3"), ruleCP6, ruleCP9}},
+			Rules:       []func(*Ctx) *rule{ruleCP1, ruleCP3("CP3"), ruleCP6, ruleCP9, ruleCP10, ruleCP12}},
 		{ID: "C02", Title: "A task whose inputs are unchanged since its last success is skipped",
 			Explanation: "Static analysis of the run loop (same event model as C01): CP2 computes, per decision of one iteration (run, skip, record, persist), the transitive control dependence on the intra-iteration CFG and the backward data slice of every influencing condition and proves that no loop-carried phi or outer cell written in the loop is read (non-interference between tasks); CP3L proves by path search that every successful X is followed on all paths by recording an H-derived digest and persisting it; CP5 proves that a task with an empty input list can never be reported skipped.",
 			NotCovered:  []string{"that equal inputs produce equal digests across runs (C04 determinism)", "that the skip branch is actually taken when digests are equal (value-level)"},
 			Assumptions: trusted,
-			Rules:       []func(*Ctx) *rule{ruleCP2, ruleCP3("CP3L"), ruleCP5}},
+			Rules:       []func(*Ctx) *rule{ruleCP2, ruleCP3("CP3L"), ruleCP5, ruleCP11, ruleAB1}},
 		{ID: "C10", Title: "Killing spok at any point never leads to a wrongly skipped task later",
 			Explanation: "Crash points are quantified over by ordering constraints on every CFG path: CP4 proves that on every intra-iteration path to X the recorded digest is replaced by a constant and persisted first (so a kill at any later instant finds an invalidated entry); CP8 proves that an H-derived digest is only recorded under Ok() of X's own result, after X; CP7 proves that a failed read/decode of the cache file ends in a non-nil error in the loader and in the run loop (torn writes are decode errors by the json contract).",
 			NotCovered:  []string{"atomicity of os.WriteFile beyond 'a torn file does not decode'", "kill during cache.Init of a fresh project (file then holds only empty digests or is torn)"},
 			Assumptions: trusted,
-			Rules:       []func(*Ctx) *rule{ruleCP4, ruleCP7, ruleCP8}},
+			Rules:       []func(*Ctx) *rule{ruleCP4, ruleCP7, ruleCP8, ruleCP12}},
 		{ID: "C14", Title: "--force runs every selected task regardless of the cache",
 			Explanation: "CP1f proves by edge dominance that every 'skipped' store is guarded by force == false (and that the force parameter is fed from Options.Force); CP3f repeats the stale-digest path search of CP3 restricted to the paths consistent with force == true.",
 			NotCovered:  []string{"flag parsing in the CLI library"},
 			Assumptions: trusted,
-			Rules:       []func(*Ctx) *rule{ruleCP1f, ruleCP3("CP3f")}},
+			Rules:       []func(*Ctx) *rule{ruleCP1f, ruleCP3("CP3f"), ruleCP10}},
 	}
+}
+
+// ---- CP10 / CP11 (restoring the previous digest) ---------------------------------------------------------------------------
+
+// restores: cache updates after X that write back this iteration's cached digest (G-derived value) for the iterated task.
+func (rl *runLoop) restores() []sEvent {
+	var out []sEvent
+	for _, s := range rl.S {
+		if rl.gDerived(s.val) != nil && rl.inLoop(s.call) && before(rl.X, s.call) {
+			out = append(out, s)
+		}
+	}
+	return out
+}
+
+func ruleCP10(c *Ctx) *rule {
+	r := &rule{ID: "CP10", Engine: "E2+E3", Floor: 1,
+		Statement: "the digest read from the cache is written back for a task (after its commands ran) only under the necessary guard that those commands did NOT all succeed; a successful run never re-instates the old digest",
+		Necessity: "re-instating d0 after the commands succeeded on other inputs (a forced run, an input list that became empty) leaves 'last succeeded on d0' on disk: restoring the inputs to d0 later skips a task whose last success was on something else"}
+	rl := c.runLoop()
+	rl.requireEvents()
+	rl.describe(r)
+	rs := rl.restores()
+	if len(rs) == 0 {
+		r.ok(fname(rl.fn)+" no-restore", c.ipos(rl.X), "the cached digest is never written back after the commands ran")
+		return r
+	}
+	for i, s := range rs {
+		key := fmt.Sprintf("%s restore#%d", fname(rl.fn), i+1)
+		guarded := false
+		for _, g := range rl.fi.necessaryGuards(s.call.Block()) {
+			if own, ok := rl.okTest(g.cond); ok && own && !g.pol {
+				guarded = true
+			}
+		}
+		if guarded {
+			r.ok(key, c.ipos(s.call), "only on the 'a command failed' edge of this task's own result")
+		} else {
+			r.bad(key, c.ipos(s.call), "the previous digest can be written back although the commands succeeded (the guard is not 'Ok() == false' of this task's own result)", describeGuards(c, rl.fi.necessaryGuards(s.call.Block()))...)
+		}
+	}
+	return r
+}
+
+func ruleCP11(c *Ctx) *rule {
+	r := &rule{ID: "CP11", Engine: "E2+E3", Floor: 1,
+		Statement: "if the recorded digest is invalidated before the commands run, then on the 'a command failed' edge every path to the end of the iteration writes the previously recorded digest back and persists it",
+		Necessity: "otherwise a failed run erases the record of the last success for good: after reverting the inputs to what the task last succeeded on, it is run again instead of being skipped"}
+	rl := c.runLoop()
+	rl.requireEvents()
+	rl.describe(r)
+	key := fname(rl.fn) + " failure→restore+persist"
+	if inv := rl.invalidationBeforeX(nil); !inv.holds {
+		r.ok(key, c.ipos(rl.X), "the recorded digest is not invalidated before the commands (nothing to restore)")
+		return r
+	}
+	isR := map[ssa.Instruction]bool{}
+	for _, s := range rl.restores() {
+		if rl.isTaskName(s.key) {
+			isR[s.call] = true
+		}
+	}
+	isD := map[ssa.Instruction]bool{}
+	for _, d := range rl.D {
+		isD[d] = true
+	}
+	// start on the Ok()==false edges of X's own result
+	type st struct {
+		b, prev *ssa.BasicBlock
+		s       bool
+	}
+	bad := ""
+	var badPath []string
+	starts := 0
+	for _, b := range rl.fn.Blocks {
+		if !rl.inLoop(b.Instrs[0]) {
+			continue
+		}
+		if _, ok := lastInstr(b).(*ssa.If); !ok {
+			continue
+		}
+		for _, pred := range append([]*ssa.BasicBlock{nil}, b.Preds...) {
+			for i := range b.Succs {
+				cond, pol, feasible := branchCond(b, pred, i)
+				if !feasible || cond == nil {
+					continue
+				}
+				own, ok := rl.okTest(cond)
+				if !ok || !own || pol {
+					continue
+				}
+				starts++
+				seen := map[st]bool{}
+				var dfs func(blk, prev *ssa.BasicBlock, s bool, path []string)
+				dfs = func(blk, prev *ssa.BasicBlock, s bool, path []string) {
+					if bad != "" || seen[st{blk, prev, s}] {
+						return
+					}
+					seen[st{blk, prev, s}] = true
+					path = append(path, fmt.Sprintf("block %d (%s)", blk.Index, c.bpos(blk)))
+					for _, in := range blk.Instrs {
+						if isR[in] {
+							s = true
+						}
+						if isD[in] && s {
+							return
+						}
+						if ret, ok := in.(*ssa.Return); ok {
+							if ev := returnedErr(ret); ev != nil && !isNilConst(ev) {
+								return // an error ends the run: nothing more can be demanded
+							}
+							bad, badPath = "the run returns without restoring the previous digest", path
+							return
+						}
+					}
+					for j, nx := range blk.Succs {
+						if _, _, f := branchCond(blk, prev, j); !f {
+							continue
+						}
+						if rl.loop != nil && nx == rl.loop.header {
+							bad, badPath = "the iteration ends after a failed run without writing the previous digest back and persisting it", path
+							return
+						}
+						dfs(nx, blk, s, path)
+					}
+				}
+				dfs(b.Succs[i], b, false, []string{fmt.Sprintf("block %d (%s) [commands failed]", b.Index, c.bpos(b))})
+			}
+		}
+	}
+	switch {
+	case starts == 0:
+		r.bad(key, c.ipos(rl.X), "the recorded digest is invalidated before the commands but the outcome of the commands (Ok()) is never tested: a failure can never restore it")
+	case bad != "":
+		r.bad(key, c.ipos(rl.X), bad, badPath...)
+	default:
+		r.ok(key, c.ipos(rl.X), "every failure path restores the previous digest and persists it")
+	}
+	return r
+}
+
+// ---- CP12 (persist writes the in-memory cache, nothing else) ------------------------------------------------------------------
+
+func ruleCP12(c *Ctx) *rule {
+	r := &rule{ID: "CP12", Engine: "E1+E3", Floor: 1,
+		Statement: "the function that persists the cache writes the JSON encoding of its own in-memory map and nothing else: it does not read the file back, merge, filter or update the map",
+		Necessity: "the run loop's ordering guarantees (invalidate, then run, then record) are statements about what is in memory when the persist is called; a persist that merges with what is on disk or skips entries silently undoes the invalidation"}
+	rl := c.runLoop()
+	rl.describe(r)
+	_, fld := c.cacheMapField()
+	mapKey := "cache.Cache." + fld
+	seen := map[*ssa.Function]bool{}
+	for _, d := range rl.D {
+		f := d.Common().StaticCallee()
+		if f == nil || seen[f] {
+			continue
+		}
+		seen[f] = true
+		key := fname(f) + " writes-memory-map"
+		var probs []string
+		nWrite := 0
+		for _, m := range c.mutatingSites() {
+			if m.fn != f {
+				continue
+			}
+			nWrite++
+			if m.callee != "os.WriteFile" {
+				probs = append(probs, "persists with "+m.callee+" rather than a single os.WriteFile")
+				continue
+			}
+			data := m.site.Common().Args[1]
+			okData := false
+			for _, o := range origins(data) {
+				if ex, ok := o.(*ssa.Extract); ok && ex.Index == 0 {
+					if call, ok := ex.Tuple.(*ssa.Call); ok && (calleeName(call.Common()) == "encoding/json.Marshal" || calleeName(call.Common()) == "encoding/json.MarshalIndent") {
+						arg := call.Common().Args[0]
+						for _, ao := range origins(arg) {
+							if isCacheMapLoad(ao, mapKey) {
+								okData = true
+							}
+						}
+					}
+				}
+			}
+			if !okData {
+				probs = append(probs, "the bytes written are not json.Marshal of the cache's own map field")
+			}
+		}
+		if nWrite == 0 {
+			probs = append(probs, "no direct os.WriteFile in the persisting function")
+		}
+		for _, site := range callSites(f) {
+			n := calleeName(site.Common())
+			switch n {
+			case "os.ReadFile", "os.Open", "encoding/json.Unmarshal", "github.com/FollowTheProcess/spok/cache.Load":
+				probs = append(probs, "reads the existing file back ("+n+")")
+			}
+		}
+		for _, b := range f.Blocks {
+			for _, in := range b.Instrs {
+				switch x := in.(type) {
+				case *ssa.MapUpdate:
+					if isCacheMapLoad(x.Map, mapKey) {
+						probs = append(probs, "updates the cache map while persisting")
+					}
+				case *ssa.Call:
+					if bi, ok := x.Call.Value.(*ssa.Builtin); ok && bi.Name() == "delete" {
+						probs = append(probs, "deletes from a map while persisting")
+					}
+				}
+			}
+		}
+		if len(probs) == 0 {
+			r.ok(key, c.pos(f.Pos()), "os.WriteFile(path, json.Marshal(<own map>))")
+		} else {
+			r.bad(key, c.pos(f.Pos()), strings.Join(probs, "; "))
+		}
+		// Get/Set are plain map accesses
+	}
+	getFns, setFns, _ := c.cacheSummaries()
+	for f := range getFns {
+		if fnPkgPath(f) != pkgPath("cache") {
+			continue
+		}
+		key := fname(f) + " plain-lookup"
+		okPlain := true
+		for _, ret := range returnsOf(f) {
+			for _, rv := range ret.Results {
+				if b, ok := rv.Type().Underlying().(*types.Basic); ok && b.Kind() == types.String {
+					os := origins(rv)
+					for _, o := range os {
+						ex, ok := o.(*ssa.Extract)
+						if ok {
+							if _, isLk := ex.Tuple.(*ssa.Lookup); isLk {
+								continue
+							}
+						}
+						if _, isLk := o.(*ssa.Lookup); isLk {
+							continue
+						}
+						okPlain = false
+					}
+				}
+			}
+		}
+		if okPlain {
+			r.ok(key, c.pos(f.Pos()), "returns the map entry itself")
+		} else {
+			r.bad(key, c.pos(f.Pos()), "the cache read returns something other than the stored entry")
+		}
+	}
+	for f, s := range setFns {
+		if fnPkgPath(f) != pkgPath("cache") || f.Signature.Recv() == nil {
+			continue
+		}
+		key := fname(f) + " plain-update"
+		n := 0
+		for _, b := range f.Blocks {
+			for _, in := range b.Instrs {
+				if mu, ok := in.(*ssa.MapUpdate); ok && isCacheMapLoad(mu.Map, mapKey) {
+					n++
+					_ = s
+					if len(rl.fi.fn.Blocks) > 0 && len(c.info(f).necessaryGuards(b)) > 0 {
+						r.bad(key, c.ipos(mu), "the cache update is conditional")
+						n = -100
+					}
+				}
+			}
+		}
+		if n == 1 {
+			r.ok(key, c.pos(f.Pos()), "one unconditional map update")
+		} else if n >= 0 {
+			r.bad(key, c.pos(f.Pos()), fmt.Sprintf("%d map updates in the cache setter", n))
+		}
+	}
+	return r
+}
+
+// ---- AB1 (the project root is absolute) ---------------------------------------------------------------------------------------
+
+func ruleAB1(c *Ctx) *rule {
+	r := &rule{ID: "AB1", Engine: "E2+E3", Floor: 1,
+		Statement: "the directory handed to file.New as project root derives from Options.Spokfile, and the function that settles Options.Spokfile stores filepath.Abs of it on every path that returns without error",
+		Necessity: "file dependencies are hashed together with their path (joined with this root): a root that is relative one time and absolute another gives two digests for the same files, so an unchanged task is run again (and cache / outputs are resolved against the working directory)"}
+	newF := c.fn("file", "New")
+	sites := c.callersOf(newF)
+	for i, site := range sites {
+		if fnPkgPath(site.Parent()) != pkgPath("cli/app") {
+			continue
+		}
+		key := fmt.Sprintf("%s file.New#%d root", fname(site.Parent()), i+1)
+		sl := c.newSlicer()
+		sl.depth = 0
+		res := sl.run(site.Common().Args[1])
+		if !res.hasField("cli/app.Options.Spokfile") {
+			r.bad(key, c.ipos(site), "the project root does not derive from Options.Spokfile")
+			continue
+		}
+		r.ok(key, c.ipos(site), "filepath.Dir(Options.Spokfile)")
+		// the settling function: stores to Options.Spokfile dominated-before this call
+		okAbs := false
+		why := "no function called before file.New stores filepath.Abs(...) into Options.Spokfile"
+		for _, st := range c.fieldStores()["cli/app.Options.Spokfile"] {
+			f := st.Parent()
+			isAbs := false
+			for _, o := range origins(st.Val) {
+				if ex, ok := o.(*ssa.Extract); ok && ex.Index == 0 {
+					if call, ok := ex.Tuple.(*ssa.Call); ok && calleeName(call.Common()) == "path/filepath.Abs" {
+						as := c.newSlicer()
+						as.depth = 0
+						if as.run(call.Common().Args[0]).hasField("cli/app.Options.Spokfile") {
+							isAbs = true
+						}
+					}
+				}
+			}
+			if !isAbs {
+				continue
+			}
+			// st executes on every non-error return of f, and no later store follows
+			all := true
+			for _, ret := range returnsOf(f) {
+				ev := returnedErr(ret)
+				if ev != nil && !isNilConst(ev) && !mayBeNil(ev, map[ssa.Value]bool{}) {
+					continue
+				}
+				if !before(st, ret) {
+					all = false
+					why = "a path through " + fname(f) + " returns success without making Options.Spokfile absolute"
+				}
+			}
+			for _, st2 := range c.fieldStores()["cli/app.Options.Spokfile"] {
+				if st2 != st && st2.Parent() == f && reachFromInstr(st)[st2.Block()] {
+					all = false
+					why = "Options.Spokfile is stored again after it was made absolute"
+				}
+			}
+			// f is called before file.New and its error respected
+			called := false
+			for _, cs := range callSites(site.Parent()) {
+				if cs.Common().StaticCallee() == f && before(cs, site) {
+					called = true
+					if ev := errOfCall(cs); ev != nil {
+						if ok, _ := c.errEdgeDischarged(ev); !ok {
+							called = false
+							why = "the error of " + fname(f) + " is not respected"
+						}
+					}
+				}
+			}
+			if all && called {
+				okAbs = true
+			}
+		}
+		k2 := fmt.Sprintf("%s Options.Spokfile made absolute", fname(site.Parent()))
+		if okAbs {
+			r.ok(k2, c.ipos(site), "filepath.Abs(Options.Spokfile) is stored on every successful path before the spokfile is loaded")
+		} else {
+			r.bad(k2, c.ipos(site), why)
+		}
+	}
+	if len(r.Instances) == 0 {
+		lost("file.New is not called from cli/app")
+	}
+	return r
+}
+
+// allBindingsAre follows a parameter to the arguments bound to it at every module call site (recursively through
+// parameters of the callers) and requires every ultimate source to satisfy ok. It returns "" or a reason.
+func (c *Ctx) allBindingsAre(p *ssa.Parameter, depth int, ok func(ssa.Value) bool) string {
+	if depth == 0 {
+		return "call chain too deep"
+	}
+	idx := -1
+	for i, q := range p.Parent().Params {
+		if q == p {
+			idx = i
+		}
+	}
+	sites := c.callersOf(p.Parent())
+	if len(sites) == 0 {
+		return fname(p.Parent()) + " has no caller in the module"
+	}
+	for _, s := range sites {
+		args := s.Common().Args
+		if idx >= len(args) {
+			return "cannot bind at " + c.ipos(s)
+		}
+		for _, o := range origins(args[idx]) {
+			if ok(o) {
+				continue
+			}
+			if q, isP := o.(*ssa.Parameter); isP {
+				if why := c.allBindingsAre(q, depth-1, ok); why != "" {
+					return why
+				}
+				continue
+			}
+			return fmt.Sprintf("%s passes %s at %s", fname(s.Parent()), valText(o), c.ipos(s))
+		}
+	}
+	return ""
 }
